@@ -1320,7 +1320,9 @@ where
                     }
                     // ClassSetCharacter:: \b
                     0x62 /* b */ => {
-                        Ok(ClassSetCharacter(self.consume(cp)))
+                        // \b inside a class is U+0008 (backspace), as in the other modes.
+                        self.consume(cp);
+                        Ok(ClassSetCharacter(0x08))
                     }
                     // ClassSetCharacter:: \ ClassSetReservedPunctuator
                     _ if Self::is_class_set_reserved_punctuator(cp) => Ok(ClassSetCharacter(self.consume(cp))),
